@@ -174,14 +174,16 @@ class get_expr_end_visitor(NodeVisitor):
 
     def visit_Constant(self, node):
         # type: (Constant) -> None
-        self.last_loc = node.lineno, node.col_offset + 1
+        self.last_loc = max(self.last_loc, (node.lineno, node.col_offset + 1))
 
     def __getattr__(self, name):
         # type: (str) -> t.Callable[[AST], None]
         def inner(node):
             # type: (AST) -> None
             try:
-                self.last_loc = node.lineno, node.col_offset + 1
+                # fields are not visited in source order (a keyword argument
+                # may precede a starred one): keep the greatest position
+                self.last_loc = max(self.last_loc, (node.lineno, node.col_offset + 1))
             except AttributeError:
                 pass
             self.generic_visit(node)
